@@ -110,7 +110,10 @@ TGApply(p, e) ==
                           ChildDoneBeforeCancelledStartReturns |->
                               (e.res \in {"cancelled", "native"}) => e.cdone = 1,
                           GroupNotCancelledByStartFailure |->
+                              \* ... unless something else legitimately cancelled it: another failure,
+                              \* a cancelled enclosing scope, or the host being cancelled natively
                               (e.res = "err" /\ g # 0 /\ HasKey(p.causes, g) /\ p.causes[g] = 0
+                                 /\ p.s.natives[g \div 10] = 0
                                  /\ ~EffAt(p.s, g \div 10, Pos(p.s, g \div 10, p.gscope[g])))
                                  => e.gcalled = 0]
                IN [p |-> [p EXCEPT !.startret[c] = e.res,
